@@ -14,7 +14,9 @@ import (
 )
 
 // go/ast facts about the three repaired places (notes/C02.fix-{1,2,3}.patch): they pin the switches of the Lean model's
-// `Trans.Cfg.code` to the source text (Props/C02.lean: C02_cfg_is_code). The behaviour itself is tied by the
+// `Trans.Cfg.code` to the source text (Props/C02.lean: C02_cfg_is_code), and about the look-up of the task behind a failed
+// target and what an executor / agent loss writes (C02_lookup_is_code: the roster-level model `Trans.getTask`,
+// `Trans.handleExecutorFailed`, `Trans.handleAgentFailed`). The behaviour itself is tied by the
 // differential runs; these facts make a reverted repair break a theorem before the first world is started.
 
 func exprStr(fset *token.FileSet, n ast.Node) string {
@@ -171,6 +173,97 @@ func goErrorKeepsErr(fset *token.FileSet, fd *ast.FuncDecl) (found, keeps bool) 
 	return found, found && keeps
 }
 
+// lookupByTaskId: in fn, inside the body of `if response.IsMultiResponse()`, the loop `for k, v := range response.Errors()`
+// defines `task` exactly once, as `m.GetTask(k.TaskId.Value)` — the task behind a failed target is found by its task id
+// alone, in the roster as it is when the responses are in.
+func lookupByTaskId(fset *token.FileSet, fd *ast.FuncDecl) (found, byID bool) {
+	ast.Inspect(fd.Body, func(n ast.Node) bool {
+		is, ok := n.(*ast.IfStmt)
+		if !ok || !strings.HasSuffix(exprStr(fset, is.Cond), "response.IsMultiResponse()") {
+			return true
+		}
+		ast.Inspect(is.Body, func(m ast.Node) bool {
+			rs, ok := m.(*ast.RangeStmt)
+			if !ok || !strings.HasSuffix(exprStr(fset, rs.X), "response.Errors()") {
+				return true
+			}
+			key, ok := rs.Key.(*ast.Ident)
+			if !ok {
+				return false
+			}
+			found = true
+			defs, good := 0, 0
+			ast.Inspect(rs.Body, func(x ast.Node) bool {
+				as, ok := x.(*ast.AssignStmt)
+				if !ok {
+					return true
+				}
+				for i, l := range as.Lhs {
+					if id, ok := l.(*ast.Ident); ok && id.Name == "task" {
+						defs++
+						if len(as.Rhs) == len(as.Lhs) && exprStr(fset, as.Rhs[i]) == "m.GetTask("+key.Name+".TaskId.Value)" {
+							good++
+						}
+					}
+				}
+				return true
+			})
+			byID = defs == 1 && good == 1
+			return false
+		})
+		return false
+	})
+	return
+}
+
+// getTaskComparesTaskIdOnly: Manager.GetTask returns the roster task whose taskId equals the argument; it does not look
+// at agent or executor ids.
+func getTaskComparesTaskIdOnly(fset *token.FileSet, f *ast.File) bool {
+	fd := funcDecl(f, "Manager", "GetTask")
+	if fd == nil || fd.Type.Params == nil || len(fd.Type.Params.List) != 1 || len(fd.Type.Params.List[0].Names) != 1 {
+		return false
+	}
+	arg := fd.Type.Params.List[0].Names[0].Name
+	s := exprStr(fset, fd.Body)
+	return strings.Contains(s, ".taskId == "+arg) && strings.Contains(s, "m.roster.getTasks()") &&
+		!strings.Contains(s, "agentId") && !strings.Contains(s, "executorId") && !strings.Contains(s, "GetMesosCommandTarget")
+}
+
+// lossOnlyBlanks: the handler of a FAILURE event (HandleExecutorFailed / HandleAgentFailed) writes, of the roster tasks,
+// nothing but `field = ""` (and the status of the task in its goroutine); it does not take tasks out of the roster.
+func lossOnlyBlanks(fset *token.FileSet, f *ast.File, name, field string) bool {
+	fd := funcDecl(f, "Manager", name)
+	if fd == nil {
+		return false
+	}
+	blanks, ok := 0, true
+	ast.Inspect(fd.Body, func(n ast.Node) bool {
+		switch x := n.(type) {
+		case *ast.AssignStmt:
+			for i, l := range x.Lhs {
+				sel, isSel := l.(*ast.SelectorExpr)
+				if !isSel {
+					continue
+				}
+				switch {
+				case sel.Sel.Name == field && len(x.Rhs) == len(x.Lhs) && exprStr(fset, x.Rhs[i]) == `""`:
+					blanks++
+				case sel.Sel.Name == "status":
+				default:
+					ok = false
+				}
+			}
+		case *ast.CallExpr:
+			c := exprStr(fset, x.Fun)
+			if strings.HasPrefix(c, "m.roster.") && c != "m.roster.filtered" {
+				ok = false
+			}
+		}
+		return true
+	})
+	return ok && blanks == 1
+}
+
 // GenFacts is the exported entry point (probe program: `c02probe -facts <repo>`).
 func GenFacts(repo string) (string, error) { return genFacts(repo) }
 
@@ -196,7 +289,7 @@ func genFacts(repo string) (string, error) {
 	// A shape that is not recognised yields `false` facts (C02's tie theorem breaks), never an error: an error here would
 	// stop the regeneration of every other property's fragments.
 	note := ""
-	var a1, a2, in3, k4, e2 bool
+	var a1, a2, in3, k4, e2, l1, l2 bool
 	if tt == nil || ct == nil || do == nil || ce == nil {
 		note = "transitionTasks / configureTasks / ConfigureTransition.do / ControlEnvironment not found"
 	} else {
@@ -206,6 +299,8 @@ func genFacts(repo string) (string, error) {
 		f3, in3 = waitsOnlyIfSent(fset, do)
 		f4, k4 = goErrorKeepsErr(fset, ce)
 		e2 = emptyReturnsNil(fset, tt)
+		_, l1 = lookupByTaskId(fset, tt)
+		_, l2 = lookupByTaskId(fset, ct)
 		if !f1 || !f2 || !f3 || !f4 {
 			note = fmt.Sprintf("shape not recognised (single-response branch %v %v, wait on stateChangedCh %v, GO_ERROR call %v)", f1, f2, f3, f4)
 		}
@@ -219,6 +314,8 @@ func genFacts(repo string) (string, error) {
 	fmt.Fprintf(&b, "/-- core/task/manager.go: transitionTasks starts with `if len(tasks) == 0 { return nil }` -/\ndef transitionEmptyReturnsNil : Bool := %v\n\n", e2)
 	fmt.Fprintf(&b, "/-- core/environment/transition_configure.go: ConfigureTransition.do receives from env.stateChangedCh only inside the\n    `if` block that sends the ConfigureTasks message -/\ndef configureWaitsOnlyIfSent : Bool := %v\n\n", in3)
 	fmt.Fprintf(&b, "/-- core/server.go: ControlEnvironment does not store the result of TryTransition(NewGoErrorTransition(…)) in `err` -/\ndef goErrorKeepsErr : Bool := %v\n\n", k4)
+	fmt.Fprintf(&b, "/-- core/task/manager.go: in the multi-response branch of transitionTasks AND configureTasks the task behind a failed\n    target `k` is `m.GetTask(k.TaskId.Value)` (its only definition in the loop over `response.Errors()`), and\n    `Manager.GetTask` scans `m.roster.getTasks()` comparing `taskId` alone -/\ndef failedTargetLookupByTaskId : Bool := %v\n\n", l1 && l2 && getTaskComparesTaskIdOnly(fset, man))
+	fmt.Fprintf(&b, "/-- core/task/manager.go: HandleExecutorFailed / HandleAgentFailed write nothing of the roster tasks but\n    `t.executorId = \"\"` / `t.agentId = \"\"` (and the task's status); they do not change the roster -/\ndef lossOnlyBlanksIds : Bool := %v\n\n", lossOnlyBlanks(fset, man, "HandleExecutorFailed", "executorId") && lossOnlyBlanks(fset, man, "HandleAgentFailed", "agentId"))
 	b.WriteString("end Gen.C02\n")
 	return b.String(), nil
 }
